@@ -957,7 +957,7 @@ class Frame:
                     if d is not None:
                         return Num(int(d), 128, True)
                 if t == 'Ordering':
-                    return Num(v.variant - 1, 128, True)
+                    return Num(v.variant - 1, 8, True)      # repr(i8): SwitchInt targets spell -1 as 255, compared after wrapping to the operand width
                 return Num(v.variant, 128, True)
             if hasattr(v, 'discriminant'):
                 return Num(v.discriminant(), 128, True)
